@@ -38,6 +38,10 @@ def kind_class(kind):
     k = kind.lower()
     if 'derived through a shared borrow' in k or 'dangling reference' in k:
         return 'provenance'
+    if 'never freed' in k:
+        return 'block-leak'
+    if 're-boxed under a layout' in k:
+        return 'dealloc-mismatch'
     if 'zero-size allocation' in k:
         return 'zero-size-alloc'
     if 'null block' in k:
@@ -226,4 +230,6 @@ def replay_file(prop, rec):
     m = re.search(r'REPRODUCED (.*)', out)
     if rc == 1 and m:
         return True, 'native run of the real crate: ' + m.group(1)[:300]
+    if rc not in (0, 1, 3) and 'NOT-REPRODUCED' not in out:
+        return True, 'native sweep over the real crate died (rc=%s: memory corruption / abort): %s' % (rc, out.strip().splitlines()[-1][:200] if out.strip() else 'no output')
     return False, 'not reproduced natively: ' + (out.strip().splitlines()[-1][:300] if out.strip() else 'rc=%s' % rc)
